@@ -385,6 +385,52 @@ fn exec_cyclic(case: &Case, rep: &mut Report) {
             viol(rep, case, "cyclic", "proof_with_altered_embedded_verifier_data_accepted", format!("public input {i}"));
         }
     }
+    // Byzantine chain: a link proved under *foreign* verifier data (cap or digest altered; its base case is the
+    // dummy, so the link itself is a valid proof of the cyclic circuit) must not be extendable by an honest step
+    for which in ["cap", "digest"] {
+        let mut vd2 = data.verifier_only.clone();
+        if which == "cap" {
+            let j = r.usize(vd2.constants_sigmas_cap.0.len());
+            vd2.constants_sigmas_cap.0[j].elements[r.usize(4)] += F::ONE;
+        } else {
+            vd2.circuit_digest.elements[r.usize(4)] += F::ONE;
+        }
+        let base2 = match guarded(|| cyclic_base_proof(&common_data, &vd2, init_pis.clone())) {
+            Ok(p) => p,
+            Err(_) => continue,
+        };
+        let mut pw = PartialWitness::new();
+        pw.set_bool_target(condition, false).unwrap();
+        if pw.set_proof_with_pis_target::<C, D>(&inner, &base2).is_err() || pw.set_verifier_data_target(&vdt, &vd2).is_err() {
+            continue;
+        }
+        arm(&case.sched, &case.entropy);
+        let foreign = match guarded(|| data.prove(pw)) {
+            Ok(Ok(p)) => p,
+            _ => {
+                rep.probe("c20.foreign_link_not_provable");
+                continue;
+            }
+        };
+        rep.fault(&format!("cyclic.foreign_link.{which}"));
+        rep.case(sig ^ hash_str("foreign") ^ hash_str(which), true);
+        if matches!(guarded(|| check_cyclic_proof_verifier_data(&foreign, &data.verifier_only, &data.common)), Ok(Ok(()))) {
+            viol(rep, case, "cyclic", "altered_embedded_verifier_data_not_detected", format!("foreign link ({which})"));
+        }
+        let mut pw = PartialWitness::new();
+        pw.set_bool_target(condition, true).unwrap();
+        if pw.set_proof_with_pis_target::<C, D>(&inner, &foreign).is_err() || pw.set_verifier_data_target(&vdt, &data.verifier_only).is_err() {
+            continue;
+        }
+        arm(&case.sched, &case.entropy);
+        if let Ok(Ok(tip)) = guarded(|| data.prove(pw)) {
+            let ok = matches!(guarded(|| data.verify(tip.clone())), Ok(Ok(())));
+            let carries = matches!(guarded(|| check_cyclic_proof_verifier_data(&tip, &data.verifier_only, &data.common)), Ok(Ok(())));
+            if ok && carries {
+                viol(rep, case, "cyclic", "chain_with_foreign_link_accepted", format!("a link carrying altered verifier data ({which}) was extended by an honest step; the tip verifies and carries the genuine data"));
+            }
+        }
+    }
     rep.sample(json!({"mode": "cyclic", "chain_len": case.chain_len, "degree_bits": data.common.degree_bits(), "public_inputs": n_pis}));
 }
 
